@@ -1,7 +1,8 @@
 // Command c20 records the random regions' carriers for C20 (freshness): every randomized key type x
 // variant is called n times under ONE key, spread over two OS processes x two separately parsed
 // handles x two primitive instances (a per-instance counter or a time/constant-seeded generator
-// repeats across instances and processes), and the complete outputs are logged. Nothing is judged
+// repeats across instances and processes; the last instance of every handle is called from 4
+// goroutines at once), and the complete outputs are logged. Nothing is judged
 // here: spec/trace/Trace_Freshness.tla cuts the random fields out by the wire-format offsets and
 // runs the monitors of spec/sys/Freshness.tla.
 //
@@ -30,15 +31,16 @@ import (
 )
 
 const (
-	nHandles   = 2
-	nInstances = 2
-	nProcs     = 2
+	nHandles    = 2
+	nInstances  = 2
+	nProcs      = 2
+	nGoroutines = 4 // on the last instance of every handle
 )
 
 // block is one per-key history in keys.json.
 type block struct {
 	Key    string         `json:"key"`
-	Kind   string         `json:"kind"`   // aead stream hpke ecies sig keyid keygen
+	Kind   string         `json:"kind"` // aead stream hpke ecies sig keyid keygen
 	Cfg    map[string]any `json:"cfg"`
 	Target string         `json:"target"` // name in conc.Targets
 	N      int            `json:"n"`      // calls over all processes
@@ -244,6 +246,31 @@ func runBlock(b block, ts []conc.Target, proc int) []vt.Ev {
 			kh := conc.Import(raw) // a separately parsed handle of the same key
 			for inst := 0; inst < nInstances; inst++ {
 				call := caller(t, kh) // a new primitive instance
+				if inst == nInstances-1 && each >= 2*nGoroutines {
+					// the last instance is shared by several goroutines calling at once: state kept in the primitive
+					// (a nonce scratch buffer, a counter) repeats or tears values only under concurrency
+					outs := make([][][]byte, nGoroutines)
+					start := make(chan struct{})
+					var wg sync.WaitGroup
+					for g := 0; g < nGoroutines; g++ {
+						wg.Add(1)
+						go func(g int) {
+							defer wg.Done()
+							<-start
+							for i := g; i < each; i += nGoroutines {
+								outs[g] = append(outs[g], call())
+							}
+						}(g)
+					}
+					close(start)
+					wg.Wait()
+					for g := range outs {
+						for _, o := range outs[g] {
+							s.emit(o, h, inst, "")
+						}
+					}
+					continue
+				}
 				for i := 0; i < each; i++ {
 					s.emit(call(), h, inst, "")
 				}
@@ -253,7 +280,9 @@ func runBlock(b block, ts []conc.Target, proc int) []vt.Ev {
 	return s.evs
 }
 
-func idBytes(id uint32) []byte { return []byte{byte(id >> 24), byte(id >> 16), byte(id >> 8), byte(id)} }
+func idBytes(id uint32) []byte {
+	return []byte{byte(id >> 24), byte(id >> 16), byte(id >> 8), byte(id)}
+}
 
 func runProc(keys, out string, proc int) {
 	raw, err := os.ReadFile(keys)
